@@ -195,6 +195,10 @@ def judgeC03 (op : POp) (out : String) : Expect :=
       if endsWithSpecCrc d then
         .pred (a != "err badCRC" && b != "err badCRC" && a == b) "frame with a correct CRC must not be refused as bad CRC"
       else .pred (a == "err badCRC" && b == "err badCRC") "frame with a wrong CRC must be refused with ErrInvalidCRC"
+    else if e == "reqRC" || e == "respRC" then
+      -- too short to carry a trailer: refused (an error, not a panic, not a value)
+      let (a, b) := splitTwo out
+      .pred (a.startsWith "err" && b.startsWith "err") "an input too short to carry a checksum is refused with an error"
     else if isRespEntry e && framingOfEntry e == some .rtu then
       -- every parsed RTU response re-encodes to a frame that ends with its CRC
       let (a, _) := splitTwo out
@@ -251,6 +255,8 @@ def expectedRt (fr : Framing) (tid : UInt16) (a : NewArgs) : String :=
 def judgeC09 (op : POp) (out : String) : Expect :=
   match op with
   | .rt fr tid a =>
+    if out.startsWith "ENCODING-NOT-STABLE" then
+      .pred false "encoding the request a second time gave another frame: what the first encoding left of the request is not what was constructed" else
     if Spec.legal a then
       if out.startsWith "err" then .free  -- the library declined to construct it: nothing to round-trip
       else .exact (expectedRt fr tid a)
@@ -275,6 +281,8 @@ def judgeC02 (op : POp) (out : String) : Expect :=
   | .parse e d _ =>
     -- the exception recognisers: the error they hand out is the typed exception as documented (a pointer): `errors.As`
     -- with that type finds it
+    if (e == "aserrT" || e == "aserrR" || e == "aserrRC") && (out.splitOn "TYPED-NIL").length > 1 then
+      .pred false "the recogniser answered a frame that is no exception with a non-nil error holding a nil pointer (err != nil is true, Error() panics)" else
     if (e == "aserrT" || e == "aserrR" || e == "aserrRC") && (out.splitOn "BYVALUE").length > 1 then
       .pred false "an exception frame was reported by a value, not by the documented pointer type: errors.As / a type assertion with *ErrorResponse{TCP,RTU} does not recognise it" else
     if !isRespEntry e then .free else
